@@ -5,7 +5,7 @@ import json, sys
 sys.path.insert(0, '/verif')
 from sa.project import Project
 from sa.localnames import binding_fingerprints, first_use_order, TABLE
-p = Project('/repo', canonical=False)
+p = Project('/repo', canonical=False, normalise=True)
 out = {}
 for key, fi in sorted(p.functions.items()):
     fp = binding_fingerprints(fi.node)
